@@ -20,6 +20,7 @@ import (
 	"context"
 	"encoding/json"
 	"fmt"
+	"net"
 	"time"
 
 	corev1 "k8s.io/api/core/v1"
@@ -230,6 +231,29 @@ func (p *FloatingIPPlugin) ownedByOtherIncarnation(key string, pod *corev1.Pod) 
 	return false
 }
 
+// unassignOtherIPs asks the cloud provider to unassign the other ips of key which are still assigned to a node. A pod may
+// own several ips; reserveIP clears the node attribute of all of them and releasing the key frees all of them.
+func (p *FloatingIPPlugin) unassignOtherIPs(key string, unassigned net.IP) error {
+	ipInfos, err := p.ipam.ByKeyAndIPRanges(key, nil)
+	if err != nil {
+		return fmt.Errorf("query floating ip by key %s: %v", key, err)
+	}
+	for _, ipInfo := range ipInfos {
+		if ipInfo.NodeName == "" || ipInfo.IPInfo.IP.IP.Equal(unassigned) {
+			continue
+		}
+		ipStr := ipInfo.IPInfo.IP.IP.String()
+		glog.Infof("UnAssignIP nodeName %s, ip %s, key %s", ipInfo.NodeName, ipStr, key)
+		if err := p.cloudProviderUnAssignIP(&rpc.UnAssignIPRequest{
+			NodeName:  ipInfo.NodeName,
+			IPAddress: ipStr,
+		}); err != nil {
+			return fmt.Errorf("failed to unassign ip %s from %s: %v", ipStr, key, err)
+		}
+	}
+	return nil
+}
+
 func (p *FloatingIPPlugin) Release(r *ReleaseRequest) error {
 	caller := "by " + getCaller()
 	k := r.KeyObj
@@ -260,6 +284,9 @@ func (p *FloatingIPPlugin) Release(r *ReleaseRequest) error {
 			IPAddress: fip.IP.String(),
 		}); err != nil {
 			return fmt.Errorf("UnAssignIP nodeName %s, ip %s: %v", fip.NodeName, fip.IP.String(), err)
+		}
+		if err := p.unassignOtherIPs(k.KeyInDB, r.IP); err != nil {
+			return err
 		}
 		// for tapp and sts pod, we need to clean its node attr and uid
 		if err := p.reserveIP(k.KeyInDB, k.KeyInDB, "after UnAssignIP "+caller); err != nil {
